@@ -1,0 +1,227 @@
+//go:build verif
+
+package regexp2
+
+// Verification hooks for the state that survives between calls (runner pool, size-classed buffer
+// pools, replacement cache). Add-only; nothing here is compiled into normal builds.
+
+import (
+	"unsafe"
+)
+
+// VerifRunnerInfo describes one runner as it sits in the pool.
+type VerifRunnerInfo struct {
+	ID            uintptr // identity of the *Runner
+	CodeIsFull    bool    // r.code == re.code
+	CodeIsQuick   bool    // r.code == re.quickCode (and quickCode != nil)
+	TextNil       bool    // r.Runtext == nil
+	MatchNil      bool    // r.runmatch == nil
+	MatchTextNil  bool    // r.runmatch == nil || r.runmatch.text == nil
+	MatchCountLen int     // len(r.runmatch.matchcount), -1 when runmatch == nil
+	TrackNil      bool
+	StackNil      bool
+	CrawlNil      bool
+	TrackLen      int
+	StackLen      int
+	CrawlLen      int
+	TrackCount    int
+}
+
+func verifRunnerInfo(re *Regexp, r *Runner) VerifRunnerInfo {
+	info := VerifRunnerInfo{
+		ID:            uintptr(unsafe.Pointer(r)),
+		CodeIsFull:    r.code == re.code,
+		CodeIsQuick:   re.quickCode != nil && r.code == re.quickCode,
+		TextNil:       r.Runtext == nil,
+		MatchNil:      r.runmatch == nil,
+		MatchTextNil:  r.runmatch == nil || r.runmatch.text == nil,
+		MatchCountLen: -1,
+		TrackNil:      r.runtrack == nil,
+		StackNil:      r.runstack == nil,
+		CrawlNil:      r.runcrawl == nil,
+		TrackLen:      len(r.runtrack),
+		StackLen:      len(r.runstack),
+		CrawlLen:      len(r.runcrawl),
+		TrackCount:    r.runtrackcount,
+	}
+	if r.runmatch != nil {
+		info.MatchCountLen = len(r.runmatch.matchcount)
+	}
+	return info
+}
+
+// VerifPoolPeek takes whatever runner the pool hands out next, describes it and puts it back
+// untouched (a brand-new runner when the pool is empty).
+func (re *Regexp) VerifPoolPeek() VerifRunnerInfo {
+	r := re.runnerPool.Get().(*Runner)
+	info := verifRunnerInfo(re, r)
+	re.runnerPool.Put(r)
+	return info
+}
+
+// VerifScanStart is what a runner looks like when the candidate search of a scan is entered.
+type VerifScanStart struct {
+	Runner      VerifRunnerInfo
+	Textstart   int
+	Textpos     int
+	Textend     int
+	TrackDepth  int
+	StackDepth  int
+	CrawlDepth  int
+	CountsZero  bool // every runmatch.matchcount[i] == 0
+	Balancing   bool
+	MatchHasTxt bool
+}
+
+// VerifOnScan installs f as an observer called each time a scan of re enters its candidate search
+// (before every attempt). Passing nil removes it. Not safe to call while re is in use.
+func (re *Regexp) VerifOnScan(f func(VerifScanStart)) {
+	if f == nil {
+		re.findFirstChar = nil
+		return
+	}
+	re.findFirstChar = func(r *Runner) bool {
+		s := VerifScanStart{
+			Runner:     verifRunnerInfo(re, r),
+			Textstart:  r.Runtextstart,
+			Textpos:    r.Runtextpos,
+			Textend:    r.Runtextend,
+			TrackDepth: len(r.runtrack) - r.Runtrackpos,
+			StackDepth: len(r.runstack) - r.Runstackpos,
+			CrawlDepth: len(r.runcrawl) - r.runcrawlpos,
+			CountsZero: true,
+		}
+		if r.runmatch != nil {
+			for _, c := range r.runmatch.matchcount {
+				if c != 0 {
+					s.CountsZero = false
+				}
+			}
+			s.Balancing = r.runmatch.balancing
+			s.MatchHasTxt = r.runmatch.text != nil
+		}
+		f(s)
+		return findFirstCharDefault(r)
+	}
+}
+
+// VerifScan runs exactly one scan on a runner taken from re's pool, the way the entry points do.
+// kind: 0 no match, 1 match, 2 ErrBacktrackingStackLimit, 3 any other error (timeout).
+func (re *Regexp) VerifScan(useQuick bool, text []rune, hasInfo bool, textstart, prevlen int, quick bool) (kind, index, length, textpos int) {
+	runner := re.getRunner()
+	defer re.putRunner(runner)
+	if useQuick && re.quickCode != nil {
+		runner.code = re.quickCode
+	}
+	var ti *matchText
+	if hasInfo {
+		ti = newMatchText(text)
+	}
+	m, err := runner.scan(text, ti, textstart, prevlen, quick, re.MatchTimeout)
+	if err == ErrBacktrackingStackLimit {
+		return 2, 0, 0, 0
+	}
+	if err != nil {
+		return 3, 0, 0, 0
+	}
+	if m == nil {
+		return 0, 0, 0, 0
+	}
+	return 1, m.RuneIndex, m.RuneLength, m.textpos
+}
+
+// VerifPoolConfig returns the optimization options the pools and caches of re obey.
+func (re *Regexp) VerifPoolConfig() OptimizationOptions { return re.optimizations }
+
+// VerifTrackCounts returns TrackCount of the full and of the bool-only program (-1: none).
+func (re *Regexp) VerifTrackCounts() (full, quick int) {
+	quick = -1
+	if re.quickCode != nil {
+		quick = re.quickCode.TrackCount
+	}
+	return re.code.TrackCount, quick
+}
+
+// VerifCapsize returns the size of the capture array.
+func (re *Regexp) VerifCapsize() int { return re.capsize }
+
+// VerifCacheKeys lists the replacement cache from most to least recently used (nil: no cache).
+func (re *Regexp) VerifCacheKeys() []string {
+	c := re.replaceCache
+	if c == nil {
+		return nil
+	}
+	c.mu.Lock()
+	defer c.mu.Unlock()
+	keys := []string{}
+	for e := c.ll.Front(); e != nil; e = e.Next() {
+		keys = append(keys, e.Value.(*replacerDataCacheEntry).key)
+	}
+	if len(c.cache) != len(keys) {
+		keys = append(keys, "\x00map/list size mismatch")
+	}
+	return keys
+}
+
+// VerifMsCandidate mirrors the first lines of MatchString: ok=false when the prefilter rejects the
+// input, else the byte index handed to matchStringAt (-1: no prefilter applies).
+func (re *Regexp) VerifMsCandidate(s string) (int, bool) {
+	if re.stringPrefixFilter != nil && !re.RightToLeft() {
+		return re.stringPrefixFilter(s, 0)
+	}
+	return -1, true
+}
+
+// VerifStringStart exposes findStringMatchStart.
+func (re *Regexp) VerifStringStart(s string, startAt int) (int, bool, error) {
+	return re.findStringMatchStart(s, startAt)
+}
+
+// VerifRuneClassSizes / VerifByteClassSizes return the size classes of the two global pools.
+func VerifRuneClassSizes() []int { return append([]int(nil), pooledRuneBuffers.sizes...) }
+func VerifByteClassSizes() []int { return append([]int(nil), pooledByteBuffers.sizes...) }
+
+// VerifRunePoolIndex / VerifBytePoolIndex expose poolIndex of the two global pools.
+func VerifRunePoolIndex(needed, maxSize int) int { return pooledRuneBuffers.poolIndex(needed, maxSize) }
+func VerifBytePoolIndex(needed, maxSize int) int { return pooledByteBuffers.poolIndex(needed, maxSize) }
+
+// VerifRuneBufPeek takes whatever buffer class idx of the rune pool hands out next and puts it
+// back: its capacity and length, ok=false when the class is empty.
+func VerifRuneBufPeek(idx int) (capacity, length int, ok bool) {
+	v := pooledRuneBuffers.pools[idx].Get()
+	if v == nil {
+		return 0, 0, false
+	}
+	bufp := v.(*[]rune)
+	capacity, length = cap(*bufp), len(*bufp)
+	pooledRuneBuffers.pools[idx].Put(bufp)
+	return capacity, length, true
+}
+
+// VerifByteBufPeek is VerifRuneBufPeek for the replace-output pool.
+func VerifByteBufPeek(idx int) (capacity, length int, ok bool) {
+	v := pooledByteBuffers.pools[idx].Get()
+	if v == nil {
+		return 0, 0, false
+	}
+	bufp := v.(*[]byte)
+	capacity, length = cap(*bufp), len(*bufp)
+	pooledByteBuffers.pools[idx].Put(bufp)
+	return capacity, length, true
+}
+
+// VerifRuneBufStale fills every buffer class idx currently hands out with the given rune (so that a
+// later decode into it must overwrite what it reads) and returns how many buffers were touched.
+func VerifRuneBufStale(idx int, fill rune) int {
+	v := pooledRuneBuffers.pools[idx].Get()
+	if v == nil {
+		return 0
+	}
+	bufp := v.(*[]rune)
+	full := (*bufp)[:cap(*bufp)]
+	for i := range full {
+		full[i] = fill
+	}
+	pooledRuneBuffers.pools[idx].Put(bufp)
+	return 1
+}
